@@ -2339,6 +2339,10 @@ func (s *BgpServer) StopBgp(ctx context.Context, r *api.StopBgpRequest) error {
 		for host := range s.roaManager.clientMap {
 			_ = s.roaManager.DeleteServer(host)
 		}
+		if s.zclient != nil {
+			s.zclient.stop()
+			s.zclient = nil
+		}
 		s.bgpConfig.Global = oc.Global{}
 		return nil
 	}, false)
